@@ -314,3 +314,177 @@ Example C17_ex_timeout_abs :
   /\ timed_emits 20 (simulate (x_timeout (Abs 12) false 20) 20 (ext_of (tevents [(21, 1); (22, 2)] (TTDone 40))))
   = [(20, Err TIMEOUT_ERR)].
 Proof. vm_compute. split; reflexivity. Qed.
+
+(* ==== the remaining PARTIAL items (proofs: Ops/TimeoutMapperRun.v, Ops/SkipLastUnsorted.v) ==== *)
+From RxVerif Require Import Ops.SimPortSteps Ops.TimeoutMapperRun Ops.SkipLastUnsorted.
+
+(* timeout_with_mapper at RUN level.  Ports: 0 the source, 1 the first timeout observable (if
+   given), 2 the fallback (if given), 3 + j the timeout observable the mapper made for the j-th
+   element it accepted.  For EVERY interleaving of their notifications the closed world of the
+   machine is the walk [twm_spec] (its equations: next theorem): a source element is forwarded
+   and installs a fresh current timeout observable (the previous one is unsubscribed), a source
+   terminal ends the sequence; the CURRENT timeout observable's first on_next / on_completed
+   switches -- from there on exactly the fallback's notifications up to its first terminal,
+   nothing of the source, or the Timeout error at that instant when there is no fallback -- and
+   its error is passed on; a stale timeout observable, the fallback before the switch, an
+   unknown port are not heard. *)
+Theorem C17_timeout_with_mapper_walk : forall A hf ho (mapper : option (A -> nat -> res unit)) t0
+  (ins : list (Z * nat * ev A)),
+  timed_emits t0 (simulate (x_timeout_with_mapper hf ho mapper) t0 (ext2_of ins)) = twm_out hf ho mapper ins.
+Proof. exact @timeout_with_mapper_walk. Qed.
+Print Assumptions C17_timeout_with_mapper_walk.
+
+Theorem C17_timeout_with_mapper_walk_unfold : forall A hf ho (mapper : option (A -> nat -> res unit)) cnt cur t k e rest,
+  twm_out hf ho mapper = twm_spec ho mapper 0 (if hf then Some 1%nat else None)
+  /\ twm_spec ho mapper cnt cur [] = []
+  /\ twm_spec ho mapper cnt cur ((t, k, e) :: rest)
+     = match k with
+       | O => match e with
+              | Next x => (t, Next x) ::
+                          match mapper with
+                          | None => twm_spec ho mapper cnt None rest
+                          | Some f => match f x cnt with
+                                      | Raise c => [(t, Err c)]
+                                      | Ok _ => twm_spec ho mapper (S cnt) (Some (3 + cnt)%nat) rest
+                                      end
+                          end
+              | _ => [(t, e)]
+              end
+       | S _ => if is_cur k cur
+                then match e with
+                     | Err c => [(t, Err c)]
+                     | _ => if ho then upto_term (port 2 rest) else [(t, Err TIMEOUT_ERR)]
+                     end
+                else twm_spec ho mapper cnt cur rest
+       end.
+Proof. exact @twm_spec_unfold. Qed.
+Print Assumptions C17_timeout_with_mapper_walk_unfold.
+
+(* readings.  The first timeout observable: its first notification before any notification of
+   the source switches (or passes its error on) at that instant, whatever other ports send *)
+Theorem C17_timeout_with_mapper_first_timeout : forall A ho (mapper : option (A -> nat -> res unit)) t0
+  (mid rest : list (Z * nat * ev A)) t e,
+  Forall (fun i => tport i <> 0%nat /\ tport i <> 1%nat) mid ->
+  timed_emits t0 (simulate (x_timeout_with_mapper true ho mapper) t0 (ext2_of (mid ++ (t, 1%nat, e) :: rest)))
+  = twm_switch ho t e rest.
+Proof. exact @timeout_with_mapper_first_timeout. Qed.
+Print Assumptions C17_timeout_with_mapper_first_timeout.
+
+(* the timeout observable made for an element: after the source's elements pre ++ [x] (a
+   mapper that does not raise), whatever the STALE timeout observables (ports 1, 3 .. 2 + |pre|),
+   the fallback and unknown ports send in between, the first notification of port 3 + |pre| --
+   the observable made for x -- switches at that instant; before it exactly the source's
+   elements were forwarded, at their instants *)
+Theorem C17_timeout_with_mapper_element_timeout : forall A hf ho (f : A -> nat -> res unit) t0
+  (pre mid rest : list (Z * nat * ev A)) tx x t e,
+  mapper_accepts f -> Forall src_next pre ->
+  Forall (fun i => tport i <> 0%nat /\ tport i <> (3 + length pre)%nat) mid ->
+  timed_emits t0 (simulate (x_timeout_with_mapper hf ho (Some f)) t0
+      (ext2_of (pre ++ (tx, 0%nat, Next x) :: mid ++ (t, (3 + length pre)%nat, e) :: rest)))
+  = map tnote pre ++ (tx, Next x) :: twm_switch ho t e rest.
+Proof. exact @timeout_with_mapper_element_timeout. Qed.
+Print Assumptions C17_timeout_with_mapper_element_timeout.
+
+(* no timeout observable ever notifies: the source's notifications up to its first terminal,
+   nothing else (the fallback is never heard) *)
+Theorem C17_timeout_with_mapper_no_timeout : forall A hf ho (mapper : option (A -> nat -> res unit)) t0
+  (ins : list (Z * nat * ev A)),
+  mapper_ok mapper -> Forall (fun i => tport i = 0%nat \/ tport i = 2%nat) ins ->
+  timed_emits t0 (simulate (x_timeout_with_mapper hf ho mapper) t0 (ext2_of ins)) = upto_term (port 0 ins).
+Proof. exact @timeout_with_mapper_no_timeout. Qed.
+Print Assumptions C17_timeout_with_mapper_no_timeout.
+
+(* skip_last_with_time WITHOUT sortedness.  (1) any notification sequence at any instants: the
+   walk with the FIFO queue -- at an on_next the element is appended, then (and at on_completed)
+   the maximal aged PREFIX of the queue leaves ([pop_aged]): the head blocks *)
+Theorem C17_skip_last_with_time_walk : forall A t0 d (es : list (Z * ev A)),
+  timed_emits t0 (simulate (x_skip_last_with_time d) t0 (ext_of es)) = slw_spec d [] es.
+Proof. exact @skip_last_with_time_walk. Qed.
+Print Assumptions C17_skip_last_with_time_walk.
+
+(* (2) elements then at most one terminal, instants in ANY order: closed form by release index.
+   U = the instants of the popping notifications (the elements', then the completion's); element
+   i leaves at U[j] for the least j >= i, j >= its predecessor's release index, with
+   d <= U[j] - t_i; if there is none it never leaves and neither does any later element
+   ([slu_out], equations: next theorem).  An error flushes nothing. *)
+Theorem C17_skip_last_with_time_unsorted : forall A t0 d (tl : list (Z * A)) tm,
+  timed_emits t0 (simulate (x_skip_last_with_time d) t0 (ext_of (tevents tl tm)))
+  = slu_out d (map fst tl ++ done_time tm) 0 0 tl ++ term_ev tm.
+Proof. exact @skip_last_with_time_unsorted. Qed.
+Print Assumptions C17_skip_last_with_time_unsorted.
+
+Theorem C17_skip_last_unsorted_out_unfold : forall A d U lo i t (x : A) rest,
+  slu_out d U lo i ((t, x) :: rest)
+  = match find (fun j => d <=? nth j U 0 - t) (seq (Nat.max lo i) (length U - Nat.max lo i)) with
+    | Some j => (nth j U 0, Next x) :: slu_out d U j (S i) rest
+    | None => []
+    end.
+Proof. exact @slu_out_unfold. Qed.
+Print Assumptions C17_skip_last_unsorted_out_unfold.
+
+(* (3) what it implies, still without sortedness: the emitted elements are a prefix of the
+   source's (FIFO) ... *)
+Theorem C17_skip_last_with_time_unsorted_prefix : forall A t0 d (tl : list (Z * A)) tm,
+  exists n, map snd (timed_emits t0 (simulate (x_skip_last_with_time d) t0 (ext_of (tevents tl tm))))
+            = map (fun tx => Next (snd tx)) (firstn n tl) ++ map snd (@term_ev A tm).
+Proof. exact @skip_last_with_time_unsorted_prefix. Qed.
+Print Assumptions C17_skip_last_with_time_unsorted_prefix.
+
+(* ... and the k-th emission is the k-th element, at the instant of a notification not before
+   its own arrival at which its age had reached d (the window boundary) *)
+Theorem C17_skip_last_with_time_unsorted_only_aged : forall A t0 d (tl : list (Z * A)) tm k u e,
+  nth_error (timed_emits t0 (simulate (x_skip_last_with_time d) t0 (ext_of (tevents tl tm)))) k = Some (u, e) ->
+  is_terminal e = false ->
+  exists t x j, nth_error tl k = Some (t, x) /\ e = Next x /\ (k <= j < length tl + length (done_time tm))%nat
+                /\ u = nth j (map fst tl ++ done_time tm) 0 /\ d <= u - t.
+Proof. exact @skip_last_with_time_unsorted_only_aged. Qed.
+Print Assumptions C17_skip_last_with_time_unsorted_only_aged.
+
+(* on a sorted timeline the two closed forms coincide; on an unsorted one the earlier closed
+   form is NOT what the code does (an aged element waits behind a younger head) *)
+Theorem C17_skip_last_unsorted_is_sorted_form : forall A d (tl : list (Z * A)) tm, tsorted tl ->
+  slu_out d (map fst tl ++ done_time tm) 0 0 tl = sl_out d tl tm.
+Proof. exact @slu_out_sorted. Qed.
+Print Assumptions C17_skip_last_unsorted_is_sorted_form.
+
+Theorem C17_skip_last_with_time_instants_unsorted_refuted :
+  timed_emits 0 (simulate (x_skip_last_with_time 5) 0 (ext_of (tevents [(10, 1); (0, 2); (12, 3)] TTNever))) = []
+  /\ sl_out 5 [(10, 1); (0, 2); (12, 3)] TTNever ++ @term_ev Z TTNever = [(12, Next 2)].
+Proof. exact skip_last_with_time_instants_unsorted_refuted. Qed.
+Print Assumptions C17_skip_last_with_time_instants_unsorted_refuted.
+
+(* ---- non-vacuity / worked instances ---- *)
+Definition C17_ex_mapper : Z -> nat -> res unit := fun _ _ => Ok tt.
+Example C17_ex_mapper_accepts : mapper_accepts C17_ex_mapper /\ mapper_ok (Some C17_ex_mapper) /\ mapper_ok (@None (Z -> nat -> res unit)).
+Proof. repeat split. intros y i. exists tt. reflexivity. intros y i. exists tt. reflexivity. Qed.
+
+(* the fallback early (1), elements 5 and 6, the FIRST timeout observable late (3: stale), the
+   observable made for 5 late (5: stale), the one made for 6 completes at 6: switch; the source's
+   element at 6 is ignored, the fallback is mirrored up to its completion *)
+Example C17_ex_timeout_with_mapper :
+  Forall src_next [(2, 0%nat, Next 5)]
+  /\ Forall (fun i : Z * nat * ev Z => tport i <> 0%nat /\ tport i <> (3 + 1)%nat) [(5, 3%nat, Done)]
+  /\ timed_emits 0 (simulate (x_timeout_with_mapper true true (Some C17_ex_mapper)) 0
+      (ext2_of [(1, 2%nat, Next 50); (2, 0%nat, Next 5); (3, 1%nat, Next 0); (4, 0%nat, Next 6); (5, 3%nat, Done);
+                (6, 4%nat, Done); (6, 0%nat, Next 9); (7, 2%nat, Next 51); (8, 4%nat, Next 1); (9, 2%nat, Done);
+                (10, 2%nat, Next 52)]))
+     = [(2, Next 5); (4, Next 6); (7, Next 51); (9, Done)]
+  /\ timed_emits 0 (simulate (x_timeout_with_mapper true false (Some C17_ex_mapper)) 0
+      (ext2_of [(2, 0%nat, Next 5); (3, 1%nat, Next 0); (4, 0%nat, Next 6); (5, 3%nat, Done); (6, 4%nat, Next 0);
+                (6, 0%nat, Next 9); (7, 2%nat, Next 51)]))
+     = [(2, Next 5); (4, Next 6); (6, Err TIMEOUT_ERR)].
+Proof.
+  split; [repeat constructor; exists 5; reflexivity|]. split; [repeat constructor; cbn; lia|].
+  vm_compute. split; reflexivity.
+Qed.
+
+(* readings 0 10 4 9 16, completion at 17, d = 5: the element with reading 4 has age 5 at the
+   notification with reading 9 but waits behind the head (reading 10) until 16 *)
+Example C17_ex_skip_last_unsorted :
+  let tl := [(0, 1); (10, 2); (4, 3); (9, 4); (16, 5)] in
+  timed_emits 0 (simulate (x_skip_last_with_time 5) 0 (ext_of (tevents tl (TTDone 17))))
+  = [(10, Next 1); (16, Next 2); (16, Next 3); (16, Next 4); (17, Done)]
+  /\ slu_out 5 (map fst tl ++ done_time (TTDone 17)) 0 0 tl ++ @term_ev Z (TTDone 17)
+     = [(10, Next 1); (16, Next 2); (16, Next 3); (16, Next 4); (17, Done)]
+  /\ sl_out 5 tl (TTDone 17) = [(10, Next 1); (16, Next 2); (9, Next 3); (16, Next 4)].
+Proof. vm_compute. repeat split; reflexivity. Qed.
